@@ -193,6 +193,29 @@ def is_setter(fn):
     return any(isinstance(d, ast.Attribute) and d.attr == 'setter' for d in fn.decorator_list)
 
 
+def canon_for_targets(fn):
+    """the names bound by `for` targets, renamed v1, v2, … in order of appearance (when bound only there)"""
+    import copy as _copy
+    fn = _copy.deepcopy(fn)
+    order = []
+    for n in ast.walk(fn):
+        if isinstance(n, ast.For):
+            for m in ast.walk(n.target):
+                if isinstance(m, ast.Name) and m.id not in order:
+                    order.append(m.id)
+    params = {a.arg for a in fn.args.args}
+    fors = {id(m) for n in ast.walk(fn) if isinstance(n, ast.For) for m in ast.walk(n.target)}
+    ren = {}
+    for nm in order:
+        other = [m for m in ast.walk(fn) if isinstance(m, ast.Name) and m.id == nm and isinstance(m.ctx, ast.Store) and id(m) not in fors]
+        if nm not in params and not other and nm != '_':
+            ren[nm] = f'v{len(ren) + 1}'
+    for m in ast.walk(fn):
+        if isinstance(m, ast.Name) and m.id in ren:
+            m.id = ren[m.id]
+    return fn
+
+
 def extract_bound_writes():
     """every assignment to a `.lb` / `.ub` / `.position` attribute (or an element of it) in core/agent.py,
     core/space.py and spaces/*.py, outside property setters: (Class, method, target, value)"""
@@ -210,6 +233,7 @@ def extract_bound_writes():
             for fn in c.body:
                 if not isinstance(fn, ast.FunctionDef) or is_setter(fn):
                     continue
+                fn = canon_for_targets(fn)
                 def visit(block, ctx):
                     for n in block:
                         tgts = n.targets if isinstance(n, ast.Assign) else [n.target] if isinstance(n, (ast.AugAssign, ast.AnnAssign)) else []
@@ -435,6 +459,10 @@ def read_sweep(fn):
             and isinstance(lp.target.elts[0], ast.Name) and isinstance(lp.target.elts[1], ast.Tuple) and len(lp.target.elts[1].elts) == 2:
         iter_, idx = '.enumTreesAgents', lp.target.elts[0].id
         tree, agent = lp.target.elts[1].elts[0].id, lp.target.elts[1].elts[1].id
+    elif it == 'zip(space.trees, space.agents)' and isinstance(lp.target, ast.Tuple) and len(lp.target.elts) == 2 \
+            and all(isinstance(e, ast.Name) for e in lp.target.elts):
+        # the index of enumerate(zip(...)) is not used by any step of this shape
+        iter_, tree, agent = '.enumTreesAgents', lp.target.elts[0].id, lp.target.elts[1].id
     else:
         return U('iteration ' + it[:40])
     b = lambda v: 'true' if v else 'false'
@@ -764,15 +792,23 @@ def read_repro(fn):
     else:
         stmts = [s for s in body_of(fn) if not (isinstance(s, ast.Expr) and isinstance(s.value, ast.Call) and ast.unparse(s.value.func).startswith('logger.'))]
         loop = None
+        fitness = count = selected = None
         for st in stmts:
             u = ' '.join(ast.unparse(st).split())
-            if u == 'fitness = [agent.fit for agent in space.agents]':
+            tgt = st.targets[0].id if isinstance(st, ast.Assign) and len(st.targets) == 1 and isinstance(st.targets[0], ast.Name) else None
+            v = getattr(st, 'value', None)
+            if tgt and isinstance(v, ast.ListComp) and len(v.generators) == 1 and not v.generators[0].ifs \
+                    and isinstance(v.generators[0].target, ast.Name) and ast.unparse(v.generators[0].iter) == 'space.agents' \
+                    and ast.unparse(v.elt) == v.generators[0].target.id + '.fit' and fitness is None:
+                fitness = tgt
                 F['fitnessFromAgents'] = True
-            elif u == 'n_individuals = int(space.n_trees * self.p_reproduction)':
+            elif tgt and ast.unparse(v) == 'int(space.n_trees * self.p_reproduction)' and count is None:
+                count = tgt
                 F['countIsTreesTimesP'] = True
-            elif u == 'selected = g.tournament_selection(fitness, n_individuals)':
+            elif tgt and fitness and count and ast.unparse(v) == f'g.tournament_selection({fitness}, {count})' and selected is None:
+                selected = tgt
                 F['selectionIsTournament'] = True
-            elif isinstance(st, ast.For) and ast.unparse(st.iter) == 'selected' and isinstance(st.target, ast.Name) and loop is None and not st.orelse:
+            elif isinstance(st, ast.For) and selected and ast.unparse(st.iter) == selected and isinstance(st.target, ast.Name) and loop is None and not st.orelse:
                 loop = st
             else:
                 F['extraStmts'] += 1
@@ -780,24 +816,27 @@ def read_repro(fn):
             F['extraStmts'] += 1
         else:
             s_ = loop.target.id
+            worst = None
             for st in body_of(loop):
                 u = ' '.join(ast.unparse(st).split())
-                if u == 'worst = np.argmax(fitness)':
+                if isinstance(st, ast.Assign) and len(st.targets) == 1 and isinstance(st.targets[0], ast.Name) and worst is None \
+                        and ast.unparse(st.value) == f'np.argmax({fitness})':
+                    worst = st.targets[0].id
                     F['worstIsArgmax'] = True
                     continue
-                if isinstance(st, ast.Assign) and len(st.targets) == 1:
+                if isinstance(st, ast.Assign) and len(st.targets) == 1 and worst:
                     t = ast.unparse(st.targets[0])
                     cp, inner = _is_copy(st.value)
                     deep = isinstance(st.value, ast.Call) and ast.unparse(st.value.func) == 'copy.deepcopy'
-                    if t == 'space.trees[worst]':
+                    if t == f'space.trees[{worst}]':
                         F['treeCopy'] = '.deep' if deep else '.other'
                         F['treeFromSelected'] = inner == f'space.trees[{s_}]'
                         continue
-                    if t == 'space.agents[worst]':
+                    if t == f'space.agents[{worst}]':
                         F['agentCopy'] = '.deep' if deep else '.other'
                         F['agentFromSelected'] = inner == f'space.agents[{s_}]'
                         continue
-                    if t == 'fitness[worst]' and isinstance(st.value, ast.Constant) and isinstance(st.value.value, (int, float)) \
+                    if t == f'{fitness}[{worst}]' and isinstance(st.value, ast.Constant) and isinstance(st.value.value, (int, float)) \
                             and not isinstance(st.value.value, bool):
                         k = fkey(st.value.value)
                         F['marker'] = f'(some {k})' if k >= 0 else f'(some ({k}))'
